@@ -201,7 +201,7 @@ func (interp *Interpreter) execute(p *Program, id uint64) (res reflect.Value, er
 // ExecuteWithContext executes compiled Go code.
 func (interp *Interpreter) ExecuteWithContext(ctx context.Context, p *Program) (res reflect.Value, err error) {
 	interp.mutex.Lock()
-	interp.done = make(chan struct{})
+	interp.ensureDone()
 	interp.cancelChan = !interp.opt.fastChan
 	interp.mutex.Unlock()
 
